@@ -28,18 +28,19 @@ desc = {}
 for l in open("/verif/design-notes/mutants/README.md"):
     m = re.match(r"\| (M\d+) \| [^|]* \| ([^|]*) \|", l)
     if m: desc[m.group(1)] = m.group(2).strip()
+desc["M39"] = "emergency path still taken at the exact unlock second (penalty 0 for any non-empty position; a position closed with 0 LP then divides by zero)"
 desc.update({"revert-P1": "reverse of fix fcc4753 (claim with until_epoch back-dates weights)", "revert-P2": "reverse of fix ca93368 (close removes more total weight than user weight)", "revert-P3": "reverse of fix 78e4741 (zero farm fee needs two coins)", "revert-P4": "reverse of fix e63898f (stableswap spread in offer precision)",
-             "revert-P7": "reverse of fix bcca75a (D iteration stops at a 1-token step)", "revert-P8": "reverse of fix 6260abc (reverse quote through an 18-digit inverse)", "revert-P10": "reverse of fix 9137e66 (withdrawal through an 18-digit ratio)", "revert-P11": "reverse of fix bb38aab (spread from an 18-digit exchange rate)", "revert-P12": "reverse of fix 2068212 (deposit tolerance check sorts the stored reserve list in place)"})
+             "revert-P7": "reverse of fix bcca75a (D iteration stops at a 1-token step)", "revert-P8": "reverse of fix 6260abc (reverse quote through an 18-digit inverse)", "revert-P10": "reverse of fix 9137e66 (withdrawal through an 18-digit ratio)", "revert-P11": "reverse of fix bb38aab (spread from an 18-digit exchange rate)", "revert-P12": "reverse of fix 2068212 (deposit tolerance check sorts the stored reserve list in place)", "revert-P14": "reverse of fix 7f37b43 (first epoch of a late-staked LP token left out of the contract weights)"})
 det = {}
 for l in open(results):
     m = re.match(r"(\S+)\.patch (C\d+) (DETECTED|MISSED|ERROR)", l)
-    if m and not l.startswith(("M25", "M77", "M79", "M80", "M47", "M39", "M29")):
+    if m and not l.startswith(("M25", "M77", "M79", "M80", "M47", "M29")):
         det.setdefault(m.group(1), []).append(f"{m.group(2)} {'✓' if m.group(3)=='DETECTED' else m.group(3)}")
 for k, v in det.items():
     mrows.append(f"| {k} | {desc.get(k, '')} | {', '.join(v)} |")
 ctl = []
 for l in open(results):
-    if l.startswith(("M25", "M77", "M79", "M80", "M47", "M39", "M29")):
+    if l.startswith(("M25", "M77", "M79", "M80", "M47", "M29")):
         name = l.split(".patch")[0]
         n = l.count("MISSED"); bad = l.count("DETECTED") + l.count("ERROR")
         ctl.append(f"{name}: silent under {n}/20 checks" + (f", **{bad} alarms**" if bad else ""))
